@@ -235,6 +235,12 @@ def oracle_file(case):
     if any(len(v) > 1 for v in keyset.values()):
         case["_skip"] = "microheterogeneity"
         return []
+    # overlapping partial-occupancy conformers without altloc flags (e.g. 488d chains B/D): the
+    # residue-level reader's 0.5 A clash filter applies, which is outside this property
+    from rnaverif.props.c08 import close_pairs
+    if close_pairs([(a["x"], a["y"], a["z"]) for a in atoms]):
+        case["_skip"] = "atoms closer than 0.5 A"
+        return []
     ext = "pdb" if fn.endswith(".pdb") else "cif"
     p = write_tmp(text, ext)
     out = []
